@@ -80,12 +80,15 @@ def base_lines(name, perturb=None):
     """Abstract atom lines (atomtable format) of the first model of a corpus file; coordinates in
     integer milli-Angstrom.  perturb = (seed, sigma_milli) jitters every atom (a new base);
     perturb = ("anon", 0) gives every residue a name the reader cannot resolve ("N7"), so that the base
-    letter of each residue has to be detected from its atoms (MD / modelling output looks like this)."""
+    letter of each residue has to be detected from its atoms (MD / modelling output looks like this);
+    perturb = ("legacy", 0) writes the pre-2007 atom names (O1P, O2P, C5M, * for the prime) - whatever the
+    library makes of them, it must make the same of them in both file formats."""
     from rnapolis import parser
     with open(os.path.join(lib.REPO, "tests", name)) as f:
         s = parser.read_3d_structure(f)
     anon = bool(perturb) and perturb[0] == "anon"
-    rng = random.Random(perturb[0]) if perturb and not anon else None
+    legacy = bool(perturb) and perturb[0] == "legacy"
+    rng = random.Random(perturb[0]) if perturb and not anon and not legacy else None
     lines = []
     for r in s.residues:
         if r.auth is None or len(r.auth.chain) != 1 or not (-900 < r.auth.number < 8900) or len(r.auth.name) > 3:
@@ -99,7 +102,8 @@ def base_lines(name, perturb=None):
             if rng:
                 xyz = [v + int(round(rng.gauss(0, perturb[1]))) for v in xyz]
             lines.append({"m": 1, "het": 0, "ch": r.auth.chain, "num": r.auth.number, "ic": r.auth.icode or "",
-                          "rn": "N7" if anon else r.auth.name, "an": a.name, "alt": "", "occ": 100, "x": xyz[0], "y": xyz[1], "z": xyz[2]})
+                          "rn": "N7" if anon else r.auth.name,
+                          "an": {"OP1": "O1P", "OP2": "O2P", "C7": "C5M"}.get(a.name, a.name.replace("'", "*")) if legacy else a.name, "alt": "", "occ": 100, "x": xyz[0], "y": xyz[1], "z": xyz[2]})
     return lines
 
 
@@ -286,8 +290,13 @@ def record(case):
         try:
             s, inv = pr.deliver(st)
             rec["ann"] = canonical(s, inv, SHIFTS[st["shift"]])
-        except lib.MachineryError:
-            raise
+        except lib.MachineryError as e:
+            if "PDB field overflow" in str(e) and states:
+                # the moved structure no longer fits the PDB coordinate columns: this presentation does not exist
+                # as a PDB file; the state is carried as "undeliverable" with the reference annotation
+                rec["ann"], rec["undeliverable"] = states[0]["ann"], True
+            else:
+                raise
         except Exception as e:
             rec["err"] = type(e).__name__
         states.append(rec)
